@@ -339,6 +339,26 @@ func vRunC15(c *vCase) {
 		}
 		b := p.Bytes()
 		save(b)
+		if vChance(r, 0.2) {
+			// a sender encodes one packet after another from the same Packet object and keeps the encodings (a queue of
+			// datagrams): an encoding that has been handed out does not change when the next packet is encoded
+			keep := append([]byte(nil), b...)
+			p2 := *p // what the object was when b was made (the comparison below uses p itself, restored afterwards)
+			if vRebuildPacket(r, p) {
+				_ = p.Bytes()
+				if !bytes.Equal(keep, b) {
+					c.Violate("c15:encoding-changed", "the %d bytes returned by Bytes() changed when the same Packet object was given a new payload and encoded again", len(keep))
+					return
+				}
+				c.Cov("encodings_kept_across_the_next_encoding", 1)
+			}
+			*p = p2
+			b = p.Bytes()
+			if !bytes.Equal(keep, b) {
+				c.Violate("c15:encoding-unstable", "two encodings of the same packet differ")
+				return
+			}
+		}
 		if len(b) >= 8150 {
 			c.Cov("roundtrips_of_packets_over_8150_bytes", 1)
 			if len(b) == 8192 {
